@@ -994,3 +994,69 @@ def process_state_rule(ctx: Ctx, rule: str = "MEMO") -> int:
 
 
 MUTATORS_LOCAL = {"append", "extend", "insert", "pop", "remove", "clear", "sort", "reverse", "update", "setdefault", "popitem", "add", "discard", "__setitem__"}
+
+
+def undefined_name_rule(ctx: Ctx, functions, rule: str = "UNDEF") -> int:
+    """Every name a reached function reads can be resolved: it is a parameter or local that some definition reaches, a name
+    of an enclosing function, a module-level name (assignment, import, def, class) or a builtin.  A read that resolves nowhere
+    raises NameError / UnboundLocalError the first time the path is taken -- typically a rarely taken path, or the tests would
+    have seen it (the statement that defined the name was deleted or moved under a condition)."""
+    import builtins
+    from ..webs import unbound_reads
+    p = ctx.p
+    n = 0
+    bad = []
+    bi = set(dir(builtins))
+    mod_names: dict[str, set] = {}
+    for path, mi in p.modules.items():
+        names = set()
+        star = False
+        for st in ast.walk(mi.tree):
+            if isinstance(st, (ast.FunctionDef, ast.AsyncFunctionDef, ast.ClassDef)) and getattr(st, "_parent", None) is mi.tree:
+                names.add(st.name)
+            elif isinstance(st, (ast.Import, ast.ImportFrom)):
+                for a in st.names:
+                    if a.name == "*":
+                        star = True
+                    names.add((a.asname or a.name).split(".")[0])
+            elif isinstance(st, ast.Global):
+                names |= set(st.names)
+        for st in mi.tree.body:
+            for x in ast.walk(st) if not isinstance(st, (ast.FunctionDef, ast.AsyncFunctionDef, ast.ClassDef)) else []:
+                if isinstance(x, ast.Name) and isinstance(x.ctx, ast.Store):
+                    names.add(x.id)
+        mod_names[path] = names | ({"*"} if star else set())
+    for q in sorted(functions):
+        fi = p.functions.get(q)
+        if fi is None or "." in q and q.count(".") > 1:
+            continue
+        n += 1
+        mods = mod_names.get(fi.file, set())
+        if "*" in mods:
+            continue
+        fn = fi.node
+        bound = {x.id for x in ast.walk(fn) if isinstance(x, ast.Name) and isinstance(x.ctx, (ast.Store, ast.Del))}
+        for x in ast.walk(fn):
+            if isinstance(x, ast.arguments):
+                bound |= {a.arg for a in x.posonlyargs + x.args + x.kwonlyargs + ([x.vararg] if x.vararg else []) + ([x.kwarg] if x.kwarg else [])}
+            elif isinstance(x, (ast.FunctionDef, ast.AsyncFunctionDef, ast.ClassDef)) and x is not fn:
+                bound.add(x.name)
+            elif isinstance(x, (ast.Import, ast.ImportFrom)):
+                bound |= {(a.asname or a.name).split(".")[0] for a in x.names}
+            elif isinstance(x, ast.ExceptHandler) and x.name:
+                bound.add(x.name)
+            elif isinstance(x, (ast.Global, ast.Nonlocal)):
+                bound |= set(x.names)
+        # enclosing function scopes
+        for a in ancestors(fn):
+            if isinstance(a, (ast.FunctionDef, ast.AsyncFunctionDef)):
+                bound |= {y.id for y in ast.walk(a) if isinstance(y, ast.Name) and isinstance(y.ctx, ast.Store)} | {b.arg for b in a.args.args + a.args.kwonlyargs}
+        for x in ast.walk(fn):
+            if isinstance(x, ast.Name) and isinstance(x.ctx, ast.Load) and x.id not in bound and x.id not in mods and x.id not in bi and x.id != "__class__":
+                bad.append((fi, x, f"`{x.id}` is read in {fi.qualname} but bound nowhere (no local, enclosing, module-level or builtin name)"))
+        for x in unbound_reads(fn):
+            bad.append((fi, x, f"`{x.id}` is read in {fi.qualname} before any assignment can reach the read"))
+    ctx.check(not bad, rule, f"every name read resolves to a definition ({n} functions inspected)", function=bad[0][0].qualname if bad else "*",
+              construct=bad[0][2] if bad else "ok", message="the read raises NameError / UnboundLocalError whenever that path is executed" if bad else "",
+              file=bad[0][0].file if bad else next(iter(p.sources)), node=bad[0][1] if bad else None)
+    return n
